@@ -16,7 +16,7 @@ static unsigned vg_cmp_calls;
 static int vg_cmp(const void *a, const void *b, void *clos)
 {
 	vg_cmp_calls++;
-	VG_P("C04", clos == (void *)vg_keys, "the comparator receives the closure given at heap_init");
+	VG_P("C04,C06", clos == (void *)vg_keys, "the comparator receives the closure given at heap_init");
 	int x = *(const int *)a, y = *(const int *)b;
 	return x < y ? -1 : x > y;
 }
@@ -35,12 +35,12 @@ static struct heap *vg_any_heap(size_t n, _Bool valid)
 }
 static void vg_check_heap(struct heap *h, size_t n, const char *unused)
 {
-	VG_P("C04,C05", heap_size(h) == n, "the heap holds the expected number of elements");
+	VG_P("C04,C05,C06", heap_size(h) == n, "the heap holds the expected number of elements");
 	size_t in_i = nondet_size();
 	if (in_i >= 1 && in_i < n)
-		VG_P("C04,C05", *(int *)h->vec->_v[(in_i - 1) / 2] <= *(int *)h->vec->_v[in_i], "heap order: no element is smaller than its parent (so the root is a minimum)");
+		VG_P("C04,C05,C06", *(int *)h->vec->_v[(in_i - 1) / 2] <= *(int *)h->vec->_v[in_i], "heap order: no element is smaller than its parent (so the root is a minimum)");
 	if (in_i < n)
-		VG_P("C04,C05", n == 0 || *(int *)h->vec->_v[0] <= *(int *)h->vec->_v[in_i], "the root is a minimum of the heap");
+		VG_P("C04,C05,C06", n == 0 || *(int *)h->vec->_v[0] <= *(int *)h->vec->_v[in_i], "the root is a minimum of the heap");
 }
 /* number of slots holding item p */
 static unsigned vg_count(struct heap *h, size_t n, void *p)
@@ -58,7 +58,7 @@ void h_heap_step(void)
 		heap_push(h, &vg_keys[in_n]);                                     /* a new item (index n is not in the heap) */
 		VG_REACH("heap_push returns");
 		vg_check_heap(h, in_n + 1, "");
-		VG_P("C04,C05", vg_count(h, in_n + 1, item) == before + (in_item == in_n), "push adds exactly the new item and keeps every other element once");
+		VG_P("C04,C05,C06", vg_count(h, in_n + 1, item) == before + (in_item == in_n), "push adds exactly the new item and keeps every other element once");
 	}
 #elif VG_HOP == 1
 	{     /* pop */
@@ -67,9 +67,9 @@ void h_heap_step(void)
 		unsigned before = vg_count(h, in_n, item);
 		void *r = heap_pop(h);
 		VG_REACH("heap_pop returns");
-		VG_P("C04,C05", r == root, "pop returns the root (NULL on an empty heap)");
+		VG_P("C04,C05,C06", r == root, "pop returns the root (NULL on an empty heap)");
 		vg_check_heap(h, in_n ? in_n - 1 : 0, "");
-		VG_P("C04,C05", vg_count(h, in_n ? in_n - 1 : 0, item) == before - (in_n && item == root), "pop removes exactly the root and keeps every other element once");
+		VG_P("C04,C05,C06", vg_count(h, in_n ? in_n - 1 : 0, item) == before - (in_n && item == root), "pop removes exactly the root and keeps every other element once");
 	}
 #elif VG_HOP == 2
 	{     /* replace the root by a new item */
@@ -78,9 +78,9 @@ void h_heap_step(void)
 		unsigned before = vg_count(h, in_n, item);
 		void *r = heap_replace(h, &vg_keys[in_n]);
 		VG_REACH("heap_replace returns");
-		VG_P("C04,C05", r == root, "replace returns the old root (NULL on an empty heap)");
+		VG_P("C04,C05,C06", r == root, "replace returns the old root (NULL on an empty heap)");
 		vg_check_heap(h, in_n, "");
-		if (in_n) VG_P("C04,C05", vg_count(h, in_n, item) == before - (item == root) + (in_item == in_n), "replace swaps exactly the root for the new item");
+		if (in_n) VG_P("C04,C05,C06", vg_count(h, in_n, item) == before - (item == root) + (in_item == in_n), "replace swaps exactly the root for the new item");
 	}
 #elif VG_HOP == 3
 	{     /* heapify an arbitrary array */
@@ -89,15 +89,15 @@ void h_heap_step(void)
 		heap_heapify(h);
 		VG_REACH("heap_heapify returns");
 		vg_check_heap(h, in_n, "");
-		VG_P("C04,C05", vg_count(h, in_n, item) == before, "heapify permutes the elements (none lost, none duplicated)");
+		VG_P("C04,C05,C06", vg_count(h, in_n, item) == before, "heapify permutes the elements (none lost, none duplicated)");
 	}
 #elif VG_HOP == 4
 	{     /* observers and clip/reset/add */
 		struct heap *h = vg_any_heap(in_n, 1);
 		size_t in_i = nondet_size(), in_c = nondet_size();
-		VG_P("C04,C05", heap_peek(h) == (in_n ? h->vec->_v[0] : NULL), "peek returns the root without removing it");
-		VG_P("C04,C05", heap_size(h) == in_n, "size is the number of elements");
-		if (in_n > 0) VG_P("C04,C05", heap_get(h, in_i) == (in_i < in_n ? h->vec->_v[in_i] : NULL), "get(i) returns slot i, NULL beyond the end");
+		VG_P("C04,C05,C06", heap_peek(h) == (in_n ? h->vec->_v[0] : NULL), "peek returns the root without removing it");
+		VG_P("C04,C05,C06", heap_size(h) == in_n, "size is the number of elements");
+		if (in_n > 0) VG_P("C04,C05,C06", heap_get(h, in_i) == (in_i < in_n ? h->vec->_v[in_i] : NULL), "get(i) returns slot i, NULL beyond the end");
 		heap_add(h, &vg_keys[in_n]);
 		VG_P("C05", heap_size(h) == in_n + 1 && h->vec->_v[in_n] == &vg_keys[in_n] && vg_count(h, in_n, item) == (in_item < in_n), "add appends without reordering");
 		heap_clip(h, in_c);
